@@ -52,7 +52,11 @@ class Bounded:
         self.contract_evals[contract] = self.contract_evals.get(contract, 0) + 1
 
     def fail(self, name, inp, detail):
-        if len(self.failures) < 40:
+        # keep at most 30 witnesses per obligation name (every distinct failing obligation stays visible)
+        self._per_name = getattr(self, "_per_name", {})
+        n = self._per_name.get(name, 0)
+        self._per_name[name] = n + 1
+        if n < 30 and len(self.failures) < 600:
             self.failures.append(dict(name=name, input=inp, detail=str(detail)[:800]))
 
     def error(self, msg):
